@@ -33,6 +33,11 @@ type Scenario struct {
 	// AtomicRequests restricts the schedules to those in which a request, once
 	// submitted, runs to completion before anything else happens (C02 reference).
 	AtomicRequests bool
+	Known          map[string]bool // signatures of listed known findings
+	// Menu is a virtual client that, whenever idle, may issue ANY request of the
+	// menu, up to MenuDepth requests: enumerates operation sequences.
+	Menu      []ReqF
+	MenuDepth int
 
 	snap      []byte // database image after Setup (Setup is deterministic and sequential)
 	snapClock int64
@@ -131,12 +136,12 @@ func (sc *Scenario) RunOnce(ch *vx.Chooser, keepLog bool) (res *ExecResult) {
 		m.OnStart(w)
 	}
 	nsetup := len(w.Reqs)
-	st := &runState{next: make([]int, len(sc.Clients)), infl: make([]*world.Req, len(sc.Clients)), faults: sc.Faults, sendAlt: sc.SendAlt, crashes: sc.Crashes, sweeps: map[string]int{}}
+	st := &runState{next: make([]int, len(sc.Clients)+1), infl: make([]*world.Req, len(sc.Clients)+1), faults: sc.Faults, sendAlt: sc.SendAlt, crashes: sc.Crashes, sweeps: map[string]int{}}
 	for k, v := range sc.Sweeps {
 		st.sweeps[k] = v
 	}
 	for {
-		if len(w.Viol) > 0 {
+		if sc.unknownViolation(w) {
 			return
 		}
 		opts := sc.options(w, st)
@@ -153,7 +158,7 @@ func (sc *Scenario) RunOnce(ch *vx.Chooser, keepLog bool) (res *ExecResult) {
 		}
 		opts[ch.Choose(labels, costs)].apply()
 	}
-	if len(w.Viol) > 0 {
+	if sc.unknownViolation(w) {
 		return
 	}
 	if sc.Epilogue != nil {
@@ -170,6 +175,18 @@ func (sc *Scenario) RunOnce(ch *vx.Chooser, keepLog bool) (res *ExecResult) {
 	return
 }
 
+// unknownViolation reports whether the execution hit a violation that is not a
+// listed known finding (executions continue past known findings so that they do
+// not mask anything that happens later).
+func (sc *Scenario) unknownViolation(w *world.World) bool {
+	for _, v := range w.Viol {
+		if !sc.Known[v.Sig] {
+			return true
+		}
+	}
+	return false
+}
+
 func firstLine(s string) string {
 	if i := strings.IndexByte(s, '\n'); i >= 0 {
 		return s[:i]
@@ -183,7 +200,7 @@ func (sc *Scenario) options(w *world.World, st *runState) []option {
 
 	if sc.AtomicRequests {
 		// a request in flight runs alone: only its own oldest submission may execute
-		for c := range sc.Clients {
+		for c := range st.infl {
 			if r := st.infl[c]; r != nil && !r.Done && !r.Lost {
 				for i, p := range pend {
 					if p.Owner == r.Id {
@@ -221,6 +238,16 @@ func (sc *Scenario) options(w *world.World, st *runState) []option {
 			st.next[c]++
 			st.infl[c] = w.Submit(c, idx, rf.F())
 		}})
+	}
+	if mc := len(sc.Clients); len(sc.Menu) > 0 && st.next[mc] < sc.MenuDepth && (st.infl[mc] == nil || st.infl[mc].Done || st.infl[mc].Lost) {
+		for _, rf := range sc.Menu {
+			rf := rf
+			opts = append(opts, option{fmt.Sprintf("arrive c%d %s", mc, rf.Label), 0, func() {
+				idx := st.next[mc]
+				st.next[mc]++
+				st.infl[mc] = w.Submit(mc, idx, rf.F())
+			}})
+		}
 	}
 	for _, name := range world.BackgroundNames {
 		name := name
